@@ -9,6 +9,7 @@ Driver for correspondence stream `cache` (property C20).  One request per line:
                r i crash      one step of process i (crash=1: a partial .so kills the interpreter)
                k i            SIGKILL process i
                f <path> <fs>  external fault
+               w              external wipe of the whole modules directory (clear-cache.py)
   <path>   = S n kind | P t kind       (kind = pyx|c|o|so;  S n so is the final path)
   <fs>     = A | P | C src             (absent | partial | complete src)
   <np>     = report processes 0..np-1
@@ -41,12 +42,14 @@ def pFs : P FileState := do
   | "C" => do let s ← nat; pure (.complete s)
   | _ => failure
 
-def pEvent : P Event := do
+/-- a scheduler event, or `none` = external wipe (`State.wipe`) -/
+def pEvent : P (Option Event) := do
   match (← tok) with
-  | "s" => do let i ← nat; let s ← nat; pure (.spawn i s)
-  | "r" => do let i ← nat; let c ← bool; pure (.run i c)
-  | "k" => do let i ← nat; pure (.kill i)
-  | "f" => do let p ← pPath; let v ← pFs; pure (.fault p v)
+  | "s" => do let i ← nat; let s ← nat; pure (some (.spawn i s))
+  | "r" => do let i ← nat; let c ← bool; pure (some (.run i c))
+  | "k" => do let i ← nat; pure (some (.kill i))
+  | "f" => do let p ← pPath; let v ← pFs; pure (some (.fault p v))
+  | "w" => pure none
   | _ => failure
 
 def showFs : FileState → String
@@ -78,7 +81,7 @@ def request : P String := do
   let paths ← list pPath
   let idx := List.range np
   let (σ, built) := evs.foldl (fun (acc : State × List Bool) e =>
-      let σ' := step proto id acc.1 e
+      let σ' := match e with | some ev => step proto id acc.1 ev | none => acc.1.wipe
       (σ', (idx.zip acc.2).map (fun (ib : Nat × Bool) => ib.2 || isPyx0 (σ'.procs ib.1).pc)))
     (State.init, idx.map (fun _ => false))
   let pcs := idx.map (fun i => showPC (σ.procs i).pc)
